@@ -30,7 +30,7 @@ func MakeRegisterRequest(providerID peer.ID, privateKey crypto.PrivKey, addrs []
 	rec.PeerID = providerID
 	rec.Addrs = maddrs
 
-	return makeRequestEnvelop(rec, privateKey)
+	return makeRequestEnvelop(providerID, rec, privateKey)
 }
 
 // ReadRegisterRequest unmarshals a peer.PeerRequest from bytes, verifies the
